@@ -961,3 +961,177 @@ func init() {
 			return obs
 		}})
 }
+
+// ARITY.params-scoped — C19: "shadowing a builtin name locally … suppresses the
+// builtin's check for exactly the calls that reach the shadowing binding".  A
+// parameter shadows a builtin inside its own function only.  So (a) the
+// name set that exempts calls FILE-WIDE may be built from global definition
+// forms only — its builder must not collect formals — and (b) the skip-set
+// builder exempts parameter-headed calls inside defun / defmacro / lambda.
+func init() {
+	register(&Rule{ID: "ARITY.params-scoped", Floor: 3,
+		Doc: "in builtin-arity the file-wide exemption set (the string-keyed map tested as `if M[head] { return }`) is built by a function that does not reach CollectFormals, and aritySkipNodes calls, in its defun/defmacro and lambda cases, a function that reaches CollectFormals and stores into the skip set: a parameter named like a builtin exempts the calls inside its own function and no others",
+		Run: func(c *Ctx) []Obligation {
+			const rid = "ARITY.params-scoped"
+			p := c.Pkg("lint")
+			skipFn := c.LookupPkgFunc("lint.aritySkipNodes")
+			if p == nil || skipFn == nil {
+				return []Obligation{anchorMissing(rid, "lint / aritySkipNodes")}
+			}
+			info := p.TypesInfo
+			inScope := func(pp string) bool { return rel(pp) == "lint" || rel(pp) == "astutil" }
+			var collectors []*types.Func
+			for _, nm := range []string{"lint.CollectFormals", "astutil.CollectFormals"} {
+				if f := c.LookupPkgFunc(nm); f != nil {
+					collectors = append(collectors, f)
+				}
+			}
+			if len(collectors) == 0 {
+				return []Obligation{anchorMissing(rid, "CollectFormals")}
+			}
+			reaches := map[*types.Func]bool{}
+			for _, cf := range collectors {
+				reaches[cf] = true
+				for f := range c.staticReach(inScope, cf) {
+					reaches[f] = true
+				}
+			}
+			// (a) the file-wide exemption map of AnalyzerBuiltinArity
+			var lit *ast.FuncLit
+			for _, f := range p.Syntax {
+				ast.Inspect(f, func(n ast.Node) bool {
+					vs, ok := n.(*ast.ValueSpec)
+					if !ok || len(vs.Names) != 1 || vs.Names[0].Name != "AnalyzerBuiltinArity" {
+						return true
+					}
+					ast.Inspect(vs, func(m ast.Node) bool {
+						if kv, ok := m.(*ast.KeyValueExpr); ok {
+							if id, ok := kv.Key.(*ast.Ident); ok && id.Name == "Run" {
+								lit, _ = kv.Value.(*ast.FuncLit)
+							}
+						}
+						return true
+					})
+					return false
+				})
+			}
+			var obs []Obligation
+			if lit == nil {
+				return []Obligation{anchorMissing(rid, "lint.AnalyzerBuiltinArity Run")}
+			}
+			// maps with string keys tested in `if M[..] { return }`
+			builders := map[types.Object]*ast.CallExpr{}
+			ast.Inspect(lit.Body, func(n ast.Node) bool {
+				as, ok := n.(*ast.AssignStmt)
+				if !ok || len(as.Lhs) != 1 || len(as.Rhs) != 1 {
+					return true
+				}
+				o := identObj(info, as.Lhs[0])
+				if o == nil {
+					return true
+				}
+				mt, ok := o.Type().Underlying().(*types.Map)
+				if !ok {
+					return true
+				}
+				if b, ok := mt.Key().Underlying().(*types.Basic); !ok || b.Kind() != types.String {
+					return true
+				}
+				if ce, ok := ast.Unparen(as.Rhs[0]).(*ast.CallExpr); ok {
+					builders[o] = ce
+				}
+				return true
+			})
+			ord := &ordinal{}
+			ast.Inspect(lit.Body, func(n ast.Node) bool {
+				is, ok := n.(*ast.IfStmt)
+				if !ok || len(is.Body.List) == 0 {
+					return true
+				}
+				if _, isRet := is.Body.List[len(is.Body.List)-1].(*ast.ReturnStmt); !isRet {
+					return true
+				}
+				ast.Inspect(is.Cond, func(m ast.Node) bool {
+					ix, ok := m.(*ast.IndexExpr)
+					if !ok {
+						return true
+					}
+					o := identObj(info, ix.X)
+					ce := builders[o]
+					if ce == nil {
+						return true
+					}
+					callee := originOf(Callee(info, ce))
+					ob := Obligation{Rule: rid, Func: "lint.AnalyzerBuiltinArity", Construct: ord.next("file-wide exemption set " + o.Name()), Pos: c.Pos(ce.Pos()), Nontrivial: true}
+					switch {
+					case callee == nil:
+						ob.Verdict, ob.Detail = Undecided, "builder of the exemption set not resolved"
+					case reaches[callee]:
+						ob.Verdict, ob.Detail = Violated, "the set that exempts a head everywhere in the file is built by "+FuncName(callee)+", which collects parameter names: one (lambda (get) …) anywhere in the file switches off the arity check of every (get …) call, including calls that reach the builtin and fail at run time"
+					default:
+						ob.Verdict, ob.Detail = Proved, "built by "+FuncName(callee)+" from definition names only (does not reach CollectFormals)"
+					}
+					obs = append(obs, ob)
+					return true
+				})
+				return true
+			})
+			// (b) the skip-set builder scopes parameters
+			_, sd, _ := c.LookupFunc("lint.aritySkipNodes")
+			u := FuncUnit{Obj: skipFn, Decl: sd, Pkg: p}
+			for _, want := range [][]string{{"defun", "defmacro"}, {"lambda"}} {
+				construct := "parameters of " + strings.Join(want, "/") + " exempt calls in their own function"
+				var found ast.Node
+				var clause ast.Node
+				ast.Inspect(sd.Body, func(n ast.Node) bool {
+					cc, ok := n.(*ast.CaseClause)
+					if !ok {
+						return true
+					}
+					has := map[string]bool{}
+					for _, e := range cc.List {
+						if bl, ok := ast.Unparen(e).(*ast.BasicLit); ok {
+							has[strings.Trim(bl.Value, `"`)] = true
+						}
+					}
+					all := true
+					for _, w := range want {
+						if !has[w] {
+							all = false
+						}
+					}
+					if !all {
+						return true
+					}
+					clause = cc
+					for _, st := range cc.Body {
+						for _, ce := range callsIn(st, false) {
+							if f := originOf(Callee(info, ce)); f != nil && reaches[f] {
+								passesSkip := false
+								for _, a := range ce.Args {
+									if o := identObj(info, a); o != nil {
+										if _, ok := o.Type().Underlying().(*types.Map); ok {
+											passesSkip = true
+										}
+									}
+								}
+								if passesSkip {
+									found = ce
+								}
+							}
+						}
+					}
+					return true
+				})
+				switch {
+				case found != nil:
+					obs = append(obs, mkOb(c, rid, u, construct, found, Proved, "the case marks parameter-headed calls inside the form", true))
+				case clause == nil:
+					obs = append(obs, mkOb(c, rid, u, construct, sd, Undecided, "no case for "+strings.Join(want, "/")+" in aritySkipNodes", true))
+				default:
+					obs = append(obs, mkOb(c, rid, u, construct, clause, Violated, "nothing exempts a call whose head is a parameter of the enclosing function: (defun f (car) (car 1 2 3)) calls the argument, not the builtin, and would be reported", true))
+				}
+			}
+			return obs
+		}})
+}
